@@ -440,13 +440,20 @@ def wait_quiescent(d, timeout=30.0):
         try:
             n = array.array("i", [0])
             fcntl.ioctl(d.p.stdin.fileno(), termios.FIONREAD, n)
-            sc = open("/proc/%d/syscall" % d.p.pid).read().split()
             st = open("/proc/%d/stat" % d.p.pid).read().rsplit(")", 1)[1].split()[0]
         except (OSError, IndexError, ValueError):
             return False
-        if n[0] == 0 and st == "S" and sc and sc[0] in ("232", "281", "441"):
+        try:
+            sc = open("/proc/%d/syscall" % d.p.pid).read().split()
+            need = 3
+            in_wait = bool(sc) and sc[0] in ("232", "281", "441")
+        except OSError:
+            # where the kernel does not show the system call: asleep with the pipe drained, for thirty samples in a row
+            need = 30
+            in_wait = True
+        if n[0] == 0 and st == "S" and in_wait:
             hits += 1
-            if hits >= 3:
+            if hits >= need:
                 return True
         else:
             hits = 0
